@@ -4,6 +4,8 @@ import (
 	"bytes"
 	"encoding/json"
 	"fmt"
+	goparser "go/parser"
+	gotoken "go/token"
 	"os"
 	"path/filepath"
 	"regexp"
@@ -23,6 +25,7 @@ import (
 type c12Run struct {
 	ID      string            `json:"id"`
 	Files   map[string]string `json:"files"` // what is on disk before the generation (after stored-byte faults)
+	Pre     map[string]string `json:"pre,omitempty"` // sources of an earlier, fault-free generation in the same directory (its *.gen.go stay)
 	Env     string            `json:"env,omitempty"` // "", dir-missing, dir-is-file, lox-is-dir, gofile-is-dir
 	Op      Op                `json:"op"`
 	Faults  []string          `json:"stored_byte_faults,omitempty"`
@@ -92,6 +95,12 @@ func (x *Executor) judgeC12(run *c12Run, obs *Observation) c12Outcome {
 			}
 			if !found || len(obs.Files[g]) == 0 || strings.Contains(obs.FileSha[g], "differs") {
 				missing = append(missing, g)
+				continue
+			}
+			// complete = a whole Go file (a torn or overwritten-in-place file
+			// with a stale tail is not)
+			if _, err := goparser.ParseFile(gotoken.NewFileSet(), g, obs.Files[g], goparser.AllErrors); err != nil {
+				missing = append(missing, g+" (not a complete Go file: "+firstLine(err.Error())+")")
 			}
 		}
 		if len(missing) > 0 {
@@ -289,7 +298,19 @@ func (st *c12State) execOne(run *c12Run) (c12Outcome, error) {
 		os.MkdirAll(base, 0o755)
 		os.WriteFile(dir, []byte("not a directory\n"), 0o644)
 	default:
-		if err := Materialise(dir, run.Files, true); err != nil {
+		if run.Pre != nil {
+			// an earlier successful generation in the same directory: the run
+			// under judgement regenerates over its output
+			if err := Materialise(dir, run.Pre, true); err != nil {
+				return c12Outcome{}, Infra("%v", err)
+			}
+			if _, err := st.x.RunGen(dir, Op{Kind: "Gen", Binary: "plain", Cwd: "dot"}, "c12pre"); err != nil {
+				return c12Outcome{}, err
+			}
+			if err := SetSources(dir, &Variant{Name: "main", Files: run.Files}); err != nil {
+				return c12Outcome{}, Infra("%v", err)
+			}
+		} else if err := Materialise(dir, run.Files, true); err != nil {
 			return c12Outcome{}, Infra("%v", err)
 		}
 		switch run.Env {
@@ -523,10 +544,11 @@ func CheckC12(tier string, seed uint64, rep *core.Reporter) (*core.Evidence, err
 				Op: Op{Kind: "FailGen", Binary: "sim", Map: randMap(r), Cwd: "dot", Fault: &Fault{Fn: "packages.Load", Kind: "empty"}}})
 			// Go package defects
 			defects := []string{"no-go-file", "empty-go-file", "ill-typed", "syntax-error", "no-token", "no-parser-struct", "two-parser-structs",
-				"generic-parser-struct", "arity-mismatch", "return-mismatch", "two-results", "orphan-method", "missing-method"}
-			nd := 3
+				"generic-parser-struct", "arity-mismatch", "return-mismatch", "two-results", "orphan-method", "missing-method",
+				"iface-return-first", "iface-return-last", "any-return-first", "any-param", "value-receiver", "ptr-embedded-lox", "extra-methods"}
+			nd := 6
 			if tier == "thorough" {
-				nd = 6
+				nd = 12
 			}
 			for _, di := range permN(r, len(defects))[:nd] {
 				g2 := gv
@@ -537,6 +559,35 @@ func CheckC12(tier string, seed uint64, rep *core.Reporter) (*core.Evidence, err
 				}
 				doRun(&c12Run{ID: fmt.Sprintf("%d-g%s", wi, defects[di]), Files: spec.ProjectFiles(g2), Kind: "go-package", Faults: []string{defects[di]},
 					Op: Op{Kind: "Gen", Binary: bin, Map: randMap(r), Cwd: cwdModes[r.Intn(5)]}})
+			}
+			// regeneration over the output of an earlier run: the grammar shrank
+			// (or was replaced by a smaller one), so every generated file gets shorter
+			for k := 0; k < 2; k++ {
+				small := specgen.Shrink(spec, r.Uint64())
+				if k == 1 {
+					small = specgen.Generate(r.Uint64(), specgen.Options{})
+					small.Pkg = spec.Pkg
+				}
+				doRun(&c12Run{ID: fmt.Sprintf("%d-r%d", wi, k), Files: small.ProjectFiles(gv), Pre: clone(), Kind: "regenerate-smaller",
+					Op: Op{Kind: "Gen", Binary: []string{"sim", "plain"}[r.Intn(2)], Map: randMap(r), Cwd: cwdModes[r.Intn(5)]}})
+			}
+			// the same text claimed by token rules of two different files
+			{
+				cs := cloneSpec(spec)
+				cs.TwoFiles, cs.SplitLex = true, true
+				def := cs.Modes[0]
+				lit := []string{"q", "%%", "a"}[r.Intn(3)]
+				dupA := &specgen.LexRule{Kind: specgen.RTok, Name: "DUPA", Expr: &specgen.LexExpr{Op: specgen.LLit, Lit: lit}}
+				dupB := &specgen.LexRule{Kind: specgen.RTok, Name: "DUPB", Expr: &specgen.LexExpr{Op: specgen.LLit, Lit: lit}}
+				def.Rules = append(append([]*specgen.LexRule{dupA}, def.Rules...), dupB)
+				doRun(&c12Run{ID: fmt.Sprintf("%d-x", wi), Files: cs.ProjectFiles(gv), Kind: "cross-file-lexer-conflict",
+					Op: Op{Kind: "Gen", Binary: "sim", Map: randMap(r), Cwd: cwdModes[r.Intn(5)]}})
+			}
+			// grammars that are not LALR(1): must be diagnosed, not crash
+			for k := 0; k < 3; k++ {
+				cs := specgen.GenerateConflicting(r.Uint64())
+				doRun(&c12Run{ID: fmt.Sprintf("%d-c%d", wi, k), Files: cs.ProjectFiles(gv), Kind: "conflicting-grammar",
+					Op: Op{Kind: "Gen", Binary: "sim", Map: randMap(r), Cwd: cwdModes[r.Intn(5)], Report: r.Intn(2) == 0}})
 			}
 			// environment
 			envs := []string{"dir-missing", "dir-is-file", "lox-is-dir", "gofile-is-dir", "genfile-is-dir", "outside-module", "outside-module"}
